@@ -1,4 +1,4 @@
-import Eru.Cluster.ProofsNode
+import Eru.Cluster.ProofsLift
 import Eru.Props.C10
 /-
 C11 — A failed cluster operation leaves no lasting effect.
@@ -107,6 +107,43 @@ theorem removeNode_failed_counterexample : ¬ PropC11RemoveNode := by
   have := h.1.1
   revert this
   decide
+
+/-! ### API level (the wrappers' reads included) -/
+
+/-- **ReallocResource returns an error ⇒ nothing changed** -/
+theorem realloc_api_failed_no_effect (node : String) (id : Nat) (answer : Option (R × R)) (flt : Option Addr)
+    (s : State R) (hnd : (s.wls.map (·.id)).Nodup) :
+    (run (realloc node id answer) flt s).1 = .fail →
+      AbsEq s (run (realloc node id answer) flt s).2.st ∧ (run (realloc node id answer) flt s).2.st.cts = s.cts :=
+  realloc_failed node id answer flt { st := s } hnd
+
+/-- **RemoveWorkload / DissociateWorkload, whole call**: whatever the fault, the records after the
+call are exactly the records before minus those whose message reports success, and usage is again
+the sum of the remaining records — so every workload whose message reports failure is recorded
+unchanged and no usage of it was released. -/
+theorem remove_api_exact (firstNode : String) (groups : List (String × List Nat)) (flt : Option Addr)
+    (s : State R) (h : Inv s) :
+    let ms' := (run (remove firstNode groups) flt s).2
+    Inv ms'.st ∧ ∀ x, x ∈ ms'.st.wls ↔ (x ∈ s.wls ∧ ¬ x.id ∈ okIds ms'.msgs) :=
+  removeLike_rmInv removeTxn true firstNode groups flt pres_removeTxn
+    (fun w ms hnd hw => removeTxn_wls w flt ms hnd hw) s { st := s }
+    ⟨h, fun x => ⟨fun hx => ⟨hx, by simp [okIds]⟩, fun hx => hx.1⟩⟩
+
+theorem dissociate_api_exact (firstNode : String) (groups : List (String × List Nat)) (flt : Option Addr)
+    (s : State R) (h : Inv s) :
+    let ms' := (run (dissociate firstNode groups) flt s).2
+    Inv ms'.st ∧ ∀ x, x ∈ ms'.st.wls ↔ (x ∈ s.wls ∧ ¬ x.id ∈ okIds ms'.msgs) :=
+  removeLike_rmInv dissociateTxn false firstNode groups flt pres_dissociateTxn
+    (fun w ms hnd hw => dissociateTxn_wls w flt ms hnd hw) s { st := s }
+    ⟨h, fun x => ⟨fun hx => ⟨hx, by simp [okIds]⟩, fun hx => hx.1⟩⟩
+
+/-- **ReplaceWorkload, one id, partial (D13)**: the call's message is the last of the stream; if it
+reports failure the workload to replace satisfies `ReplaceFailPost`. -/
+theorem replace_api_failed_partial (node : String) (id : Nat) (flt : Option Addr) (hG : ReplaceGuard flt)
+    (s : State R) (h : Inv s) :
+    ∃ ok, (run (replace node id) flt s).2.msgs.getLast? = some ⟨node, id, ok, none⟩ ∧
+      (ok = false → ∀ w ∈ s.wls, w.id = id → ReplaceFailPost w s (run (replace node id) flt s).2.st) :=
+  replace_failed_partial node id flt hG { st := s } h
 
 /-- **The full statement for replace** (false, see the counterexample). -/
 def PropC11Replace : Prop :=
